@@ -119,3 +119,21 @@ Proof.
     constructor; [|constructor; [|constructor]]; (eapply (E_cat _ _ [_; _]); constructor; [apply E_leaf|constructor; [apply E_leaf|constructor]]).
   - split; [vm_compute; reflexivity|]. split; [vm_compute; reflexivity|]. vm_compute. discriminate.
 Qed.
+
+From WaxProofs Require Import RuleAdjRep RuleZomRep RepClosed.
+
+(* ... and with the adjacency hypotheses discharged (C06 with repetitions): for every glob that builds, whose repetitions are required
+   (not optional_repetition), bounded above or holding a bounded token, with bodies that begin and end with a leaf and not both with a
+   zero-or-more wildcard, an `Always` verdict is sound for every match - outside trailing_boundary *)
+Theorem C09_built_globs_with_required_repetitions_always_sound_unconditionally : forall orbit e t r p z,
+  build e = BuildOk t r -> required_reps t = true -> rep_class t = true -> shz t = true ->
+  is_exhaustive t = Ok Always -> may_end_sep t = false -> nosep z = true ->
+  Lang orbit t p -> Lang orbit t (p ++ SEP :: z).
+Proof. exact built_required_reps_always_sound_closed. Qed.
+Print Assumptions C09_built_globs_with_required_repetitions_always_sound_unconditionally.
+
+Example C09_repetition_unconditional_nonvacuous :
+  let e := [60;97;47;58;49;44;62;42;47;42;42;47;42]%N in
+  exists t r, build e = BuildOk t r /\ required_reps t = true /\ rep_class t = true /\ shz t = true /\
+    is_exhaustive t = Ok Always /\ may_end_sep t = false.
+Proof. cbv zeta. do 2 eexists. repeat split; vm_compute; reflexivity. Qed.
